@@ -204,8 +204,11 @@ func runLayout(inp *input, scratch string) core.Result {
 	_ = os.WriteFile(filepath.Join(scratch, "go.mod"), []byte("module example.com/c12\n\ngo 1.24.2\n"), 0o644)
 	printers := make([]*printer, len(inp.Files))
 	sources := make([]string, len(inp.Files))
+	vf := newVfiles(len(inp.Files))
+	nDirs := 0
 	for i := range inp.Files {
-		printers[i] = printFile(i, &inp.Files[i])
+		printers[i] = printFile(i, &inp.Files[i], vf)
+		nDirs += printers[i].ndirs
 		sources[i] = printers[i].sb.String()
 		obs.Source = append(obs.Source, sources[i])
 		if err := os.WriteFile(filepath.Join(scratch, "p", fileName(i)), []byte(sources[i]), 0o644); err != nil {
@@ -226,14 +229,20 @@ func runLayout(inp *input, scratch string) core.Result {
 	if pkg == nil {
 		return fail("package not loaded")
 	}
+	// the file a position is REPORTED under (index into vf: a physical file, or a name given by a //line
+	// directive); all such names live in the package directory
 	fileIdx := func(pos token.Pos) int {
-		name := filepath.Base(pkg.Position(pos).Filename)
-		for i := range inp.Files {
-			if name == fileName(i) {
-				return i
-			}
+		pp := pkg.Position(pos)
+		if filepath.Dir(pp.Filename) != filepath.Join(scratch, "p") {
+			return -1
 		}
-		return -1
+		return vf.lookup(filepath.Base(pp.Filename))
+	}
+	vname := func(i int) string {
+		if i >= 0 && i < len(vf.names) {
+			return vf.names[i]
+		}
+		return fmt.Sprintf("file#%d", i)
 	}
 	if len(pkg.Files()) != len(inp.Files) {
 		return fail(fmt.Sprintf("%d files parsed, %d printed (syntax error in the printed source)", len(pkg.Files()), len(inp.Files)))
@@ -244,13 +253,17 @@ func runLayout(inp *input, scratch string) core.Result {
 	var leads []*groupInfo
 	byStart := map[[3]int]*groupInfo{}
 	for _, f := range pkg.Files() {
-		fi := fileIdx(f.Pos())
-		if fi < 0 {
+		phys := fileIdx(f.Pos()) // the package clause lies in front of every directive
+		if phys < 0 || phys >= len(sources) {
 			return fail("unknown file " + pkg.Position(f.Pos()).Filename)
 		}
-		src := sources[fi]
+		src := sources[phys]
 		for _, cg := range f.Comments {
 			ps, pe := pkg.Position(cg.Pos()), pkg.Position(cg.End())
+			fi := fileIdx(cg.Pos())
+			if fi < 0 || fi != fileIdx(cg.End()-1) {
+				return fail("comment group under an unknown file name or across a //line directive: " + ps.String())
+			}
 			gi := &groupInfo{g: cg, file: fi, line: ps.Line, col: ps.Column, endLine: pe.Line}
 			before := src[strings.LastIndexByte(src[:ps.Offset], '\n')+1 : ps.Offset]
 			after := src[pe.Offset:]
@@ -272,7 +285,7 @@ func runLayout(inp *input, scratch string) core.Result {
 		for _, c := range p.cmts {
 			gi := byStart[[3]int{c.File, c.Line, c.Col}]
 			if gi == nil || gi.endLine != c.EndLine || gi.lead != (c.Kind == "lead") {
-				res.GoViolations = append(res.GoViolations, fmt.Sprintf("harness assumption: the comment printed at %s:%d:%d (%s) is not a comment group of its own for go/parser", fileName(c.File), c.Line, c.Col, c.Kind))
+				res.GoViolations = append(res.GoViolations, fmt.Sprintf("harness assumption: the comment printed at %s:%d:%d (%s) is not a comment group of its own for go/parser", vname(c.File), c.Line, c.Col, c.Kind))
 			}
 		}
 	}
@@ -299,7 +312,6 @@ func runLayout(inp *input, scratch string) core.Result {
 		return "(Some " + groups[cg].coq() + ")"
 	}
 	for _, f := range pkg.Files() {
-		fi := fileIdx(f.Pos())
 		var genDoc *ast.CommentGroup
 		ast.Inspect(f, func(n ast.Node) bool {
 			var doc, cmt *ast.CommentGroup
@@ -329,6 +341,7 @@ func runLayout(inp *input, scratch string) core.Result {
 			}
 			if isDecl {
 				ps := pkg.Position(n.Pos())
+				fi := fileIdx(n.Pos())
 				var nl []string
 				for _, id := range names {
 					nl = append(nl, fmt.Sprintf("%d%%Z", pkg.Position(id.Pos()).Line))
@@ -346,28 +359,32 @@ func runLayout(inp *input, scratch string) core.Result {
 	}
 
 	// printed declarations <-> what go/parser attached
-	lineTrail := map[[2]int]int{} // (file,line) -> printed trailing comment of a declaration starting there
-	leadEnd := map[[2]int]int{}   // (file,endLine) -> printed stand-alone comment
-	allCmts := func(fi int) []pcmt { return printers[fi].cmts }
-	for fi, p := range printers {
-		for ci, c := range p.cmts {
+	// keys are (reported file, reported line): what Doc / Comment are asked with
+	lineTrail := map[[2]int]pcmt{} // -> printed trailing comment of a declaration starting there
+	leadEnd := map[[2]int]pcmt{}   // (file, end line) -> printed stand-alone comment
+	for _, p := range printers {
+		for _, c := range p.cmts {
 			if c.Kind == "lead" {
-				leadEnd[[2]int{fi, c.EndLine}] = ci
+				if _, dup := leadEnd[[2]int{c.File, c.EndLine}]; dup {
+					res.GoViolations = append(res.GoViolations, fmt.Sprintf("harness assumption: two stand-alone comments end on %s:%d (overlapping //line ranges)", vname(c.File), c.EndLine))
+				}
+				leadEnd[[2]int{c.File, c.EndLine}] = c
 			}
 		}
 		for _, d := range p.decls {
+			fi := d.File
 			if d.Trail >= 0 {
-				if old, ok := lineTrail[[2]int{fi, d.Line}]; ok && old != d.Trail {
-					res.GoViolations = append(res.GoViolations, fmt.Sprintf("harness assumption: two trailing comments for declarations starting on %s:%d", fileName(fi), d.Line))
+				if old, ok := lineTrail[[2]int{fi, d.Line}]; ok && old != p.cmts[d.Trail] {
+					res.GoViolations = append(res.GoViolations, fmt.Sprintf("harness assumption: two trailing comments for declarations starting on %s:%d", vname(fi), d.Line))
 				}
-				lineTrail[[2]int{fi, d.Line}] = d.Trail
+				lineTrail[[2]int{fi, d.Line}] = p.cmts[d.Trail]
 			}
 			if d.What == "func" {
 				continue
 			}
 			at, ok := declNodes[[3]int{fi, d.Line, d.Col}]
 			if !ok {
-				res.GoViolations = append(res.GoViolations, fmt.Sprintf("harness assumption: no declaration node at %s:%d:%d", fileName(fi), d.Line, d.Col))
+				res.GoViolations = append(res.GoViolations, fmt.Sprintf("harness assumption: no declaration node at %s:%d:%d", vname(fi), d.Line, d.Col))
 				continue
 			}
 			same := func(cg *ast.CommentGroup, id int) bool {
@@ -375,32 +392,32 @@ func runLayout(inp *input, scratch string) core.Result {
 					return cg == nil
 				}
 				c := p.cmts[id]
-				return cg != nil && groups[cg].line == c.Line && groups[cg].col == c.Col
+				return cg != nil && groups[cg].file == c.File && groups[cg].line == c.Line && groups[cg].col == c.Col
 			}
 			if !same(at.cmt, d.Trail) {
-				res.GoViolations = append(res.GoViolations, fmt.Sprintf("harness assumption: go/parser's Comment of the declaration at %s:%d:%d is not the printed trailing comment", fileName(fi), d.Line, d.Col))
+				res.GoViolations = append(res.GoViolations, fmt.Sprintf("harness assumption: go/parser's Comment of the declaration at %s:%d:%d is not the printed trailing comment", vname(fi), d.Line, d.Col))
 			}
 			if !same(at.doc, d.Doc) {
-				res.GoViolations = append(res.GoViolations, fmt.Sprintf("harness assumption: go/parser's Doc of the declaration at %s:%d:%d is not the printed doc comment", fileName(fi), d.Line, d.Col))
+				res.GoViolations = append(res.GoViolations, fmt.Sprintf("harness assumption: go/parser's Doc of the declaration at %s:%d:%d is not the printed doc comment", vname(fi), d.Line, d.Col))
 			}
 		}
 	}
 	printedAt := map[[3]int]bool{}
-	for fi, p := range printers {
+	for _, p := range printers {
 		for _, d := range p.decls {
-			printedAt[[3]int{fi, d.Line, d.Col}] = true
+			printedAt[[3]int{d.File, d.Line, d.Col}] = true
 		}
 	}
 	for at, dn := range declNodes { // unnamed parameters / results are nodes too, but never carry comments
 		if !printedAt[at] && (dn.doc != nil || dn.cmt != nil) {
-			res.GoViolations = append(res.GoViolations, fmt.Sprintf("harness assumption: go/parser attached a comment to a node at %s:%d:%d that the layout did not print as a declaration", fileName(at[0]), at[1], at[2]))
+			res.GoViolations = append(res.GoViolations, fmt.Sprintf("harness assumption: go/parser attached a comment to a node at %s:%d:%d that the layout did not print as a declaration", vname(at[0]), at[1], at[2]))
 		}
 	}
 	contNames := map[[3]int]int{} // printed names that are not on the first line of their declaration -> that line
-	for fi, p := range printers {
+	for _, p := range printers {
 		for _, n := range p.names {
 			if d := p.decls[n.Decl]; d.Line != n.Line {
-				contNames[[3]int{fi, n.Line, n.Col}] = d.Line
+				contNames[[3]int{n.File, n.Line, n.Col}] = d.Line
 			}
 		}
 	}
@@ -409,17 +426,17 @@ func runLayout(inp *input, scratch string) core.Result {
 		ps := pkg.Position(q.pos)
 		qset[[3]int{fileIdx(q.pos), ps.Line, ps.Column}] = true
 	}
-	for fi, p := range printers {
+	for _, p := range printers {
 		for _, n := range p.names {
-			if !qset[[3]int{fi, n.Line, n.Col}] {
-				res.GoViolations = append(res.GoViolations, fmt.Sprintf("harness assumption: printed name %s at %s:%d:%d is not a declared name in the AST", n.Name, fileName(fi), n.Line, n.Col))
+			if !qset[[3]int{n.File, n.Line, n.Col}] {
+				res.GoViolations = append(res.GoViolations, fmt.Sprintf("harness assumption: printed name %s at %s:%d:%d is not a declared name in the AST", n.Name, vname(n.File), n.Line, n.Col))
 			}
 		}
 	}
 
 	// observe Doc / Comment for every declared name; the expectation is line-based, from the printed layout
-	textOf := func(fi int, c pcmt) *string {
-		gi := byStart[[3]int{fi, c.Line, c.Col}]
+	textOf := func(c pcmt) *string {
+		gi := byStart[[3]int{c.File, c.Line, c.Col}]
 		if gi == nil {
 			return nil
 		}
@@ -451,13 +468,20 @@ func runLayout(inp *input, scratch string) core.Result {
 			declLine = dl
 			stats["name_on_continuation_line"] = true
 		}
-		if ci, ok := leadEnd[[2]int{fi, declLine - 1}]; ok {
-			on.ExpDoc = textOf(fi, allCmts(fi)[ci])
+		behindDir := fi >= len(inp.Files) || ps.Line != pkg.FileSet().PositionFor(q.pos, false).Line
+		if c, ok := leadEnd[[2]int{fi, declLine - 1}]; ok {
+			on.ExpDoc = textOf(c)
 			stats["doc"] = true
+			if behindDir {
+				stats["doc_behind_line_directive"] = true
+			}
 		}
-		if ci, ok := lineTrail[[2]int{fi, declLine}]; ok {
-			on.ExpCmt = textOf(fi, allCmts(fi)[ci])
+		if c, ok := lineTrail[[2]int{fi, declLine}]; ok {
+			on.ExpCmt = textOf(c)
 			stats["trailing"] = true
+			if behindDir {
+				stats["trailing_behind_line_directive"] = true
+			}
 		}
 		if _, ok := lineTrail[[2]int{fi, ps.Line - 1}]; ok && on.ExpDoc == nil {
 			stats["prev_line_trailing_no_doc"] = true
@@ -486,6 +510,9 @@ func runLayout(inp *input, scratch string) core.Result {
 		res.Class = "empty_comment_text"
 	case stats["prev_line_trailing_no_doc"]:
 		res.Class = "trailing_comment_on_previous_line"
+	}
+	if nDirs > 0 {
+		res.Tags = append(res.Tags, fmt.Sprintf("layout:line_directives=%d", min(nDirs, 3)))
 	}
 	res.Tags = append(res.Tags, "kind=layout", fmt.Sprintf("layout:files=%d", len(inp.Files)), fmt.Sprintf("layout:names=%d", 10*(len(queries)/10)))
 	for k := range stats {
